@@ -53,6 +53,14 @@ def replay_segy(req, tmp):
     what = 'SegyConverter(%s %s, format %s, %d ext headers%s).run(bits_per_voxel=%s, blockshape=%s, reduce_iops=%s, header_detection=%s)' % (
         kind, dims, o.get('fmt', 1), o.get('ext', 0), ', window %s' % kw if kw else '', o.get('bpv_in', rate), tuple(o.get('bs_in', bs)),
         bool(o.get('reduce_iops')), o.get('detection', 'heuristic'))
+    if prop == 'C18':
+        from replay.writers import crash_replay
+
+        def convert():
+            with SegyConverter(sgy, **kw) as conv:
+                quiet(conv.run, sgz, bits_per_voxel=o.get('bpv_in', rate), blockshape=tuple(o.get('bs_in', bs)),
+                      reduce_iops=bool(o.get('reduce_iops')), header_detection=o.get('detection', 'heuristic'))
+        return crash_replay(req, convert, sgz, tmp, dims, kind == '2d', what)
     try:
         with SegyConverter(sgy, **kw) as conv:
             if o.get('runs') == 2:
